@@ -235,6 +235,9 @@ class Ctx:
         self.rule = ''
         self.exhaustive = False
         self.deadline = None
+        self.only = None              # replay: evaluate only this case index
+        self.current = None
+        self.model_available = True
 
     # -- counting
     def count(self, kind, n=1):
@@ -247,6 +250,20 @@ class Ctx:
             self.hashes_nontrivial.add(case_hash([kind, case]))
         if len(self.samples) < 12 and self.kind_counts[kind] <= 2:
             self.samples.append({'kind': kind, 'case': _short(case)})
+
+    def begin_case(self, i):
+        """Call after the case has been *generated* (so the RNG stream is identical in replays);
+        returns False when the case must not be evaluated (replay of another index / out of time)."""
+        self.current = i
+        if self.only is not None:
+            return i == self.only
+        return True
+
+    def done(self, i):
+        """True when a replay has passed its case, or the time budget is used up"""
+        if self.only is not None and i > self.only:
+            return True
+        return self.deadline is not None and time.time() > self.deadline
 
     def quick(self, q, t):
         return q if self.tier == 'quick' else t
@@ -271,7 +288,8 @@ class Ctx:
         """Record a violation of the property observed on the implementation.
         `key` identifies a known-finding class when the failure is attributable to one."""
         if len(self.failures) < 200:
-            self.failures.append(dict(kind=kind, case=case, what=what, key=key, detail=detail))
+            self.failures.append(dict(kind=kind, case=case, what=what, key=key, detail=detail,
+                                      index=self.current, seed=self.seed, tier=self.tier))
         else:
             self.count('failures_dropped')
 
